@@ -22,7 +22,7 @@ F_O2 = ['EngineControl::startSearch (310-318)', 'EngineControl::startPonder (321
 F_O3 = ['Search::shouldStop (search.cpp:436-471)', 'Search::getTotalNodes (search.hpp:446)', 'Communicator::getNumSearchedNodes', 'RelaxedShared<>::operator T']
 S_ENV = ['parameter objects (bufferTime, UciParams::ponder, ...) are harness-defined storage with fields set directly (parameters.cpp not in the unit); they are read by the real accessors']
 S_CTL = S_ENV + ['Search::timeLimit -> records its arguments (observation point)', 'Search::Search, Search::setStrength, Search::setWhiteContempt, EngineControl::getStrength/getMaxNPS/getWhiteContempt -> no-ops / constants',
-         'MoveGen::pseudoLegalMoves<wtm>/removeIllegal -> arbitrary legal-move count 0..256; MoveList::filter -> arbitrary smaller count', 'EngineControl::setupPosition, Position copy-ctor/dtor of its argument -> no-ops',
+         'MoveGen::pseudoLegalMoves<wtm>/removeIllegal -> arbitrary legal-move count 0..256; MoveList::filter -> arbitrary smaller count', 'EngineControl::setupPosition -> installs the new position\'s side to move (before the call pos holds an arbitrary previous side); Position copy-ctor/dtor of its argument -> no-ops',
          'EngineMainThread::waitStop/waitOptionsSet -> no-ops; EngineMainThread::startSearch -> records depth/ponder/infinite; Communicator::getCTT -> dummy reference',
          'EngineControl / EngineMainThread objects are raw typed storage (constructors not run); the reference members engineThread/listener are bound by the harness']
 S_STOP = ['currentTimeMillis -> symbolic non-decreasing clock (two readings)', 'Communicator::poll -> no-op (no helper-thread result arrives; otherwise shouldStop throws HelperThreadResult)',
